@@ -152,7 +152,7 @@ def shoc_simple(ny=3, nx=4, **kw):
     return cf2d(ny, nx, ydim='j', xdim='i', **kw)
 
 
-def shoc_standard(ny=3, nx=4, *, node_holes=(), skew=0.1, radial=False, time=2, depth=2, as_coords=True, extra=True):
+def shoc_standard(ny=3, nx=4, *, node_holes=(), skew=0.1, radial=False, time=2, depth=2, as_coords=True, extra=True, fortran=False):
     gx, gy = curvilinear(ny, nx, skew, radial)
     for (hj, hi) in node_holes:
         if 0 <= hj <= ny and 0 <= hi <= nx:
@@ -173,6 +173,8 @@ def shoc_standard(ny=3, nx=4, *, node_holes=(), skew=0.1, radial=False, time=2, 
         ('x_back', x_back, ['j_back', 'i_back']), ('y_back', y_back, ['j_back', 'i_back']),
         ('x_grid', gx, ['j_node', 'i_node']), ('y_grid', gy, ['j_node', 'i_node']),
     ]:
+        if fortran:
+            arr = numpy.asfortranarray(arr)        # same values, dimensions and shape; column-major memory layout
         tgt[name] = xarray.DataArray(arr, dims=dims, attrs={'units': 'degrees_east' if name[0] == 'x' else 'degrees_north'})
     if extra:
         tshape = ([time] if time else [])
@@ -253,7 +255,7 @@ def mesh_tables(faces):
     return edge_list, face_edges, edge_faces, face_faces
 
 
-def _table(rows, width, start_index, fill_mode, fill_value=-999):
+def _table(rows, width, start_index, fill_mode, fill_value=-999, pad_front=False):
     """rows of ints -> (array, attrs) in the requested fill representation."""
     n = len(rows)
     ragged = any(len(r) != width for r in rows)
@@ -264,12 +266,14 @@ def _table(rows, width, start_index, fill_mode, fill_value=-999):
     if fill_mode == 'nan' or (fill_mode == 'none' and ragged and False):
         arr = numpy.full((n, width), numpy.nan, dtype=float)
         for k, r in enumerate(rows):
-            arr[k, :len(r)] = numpy.array(r, dtype=float) + si
+            sl = slice(width - len(r), width) if pad_front else slice(0, len(r))
+            arr[k, sl] = numpy.array(r, dtype=float) + si
         return arr, attrs
     if fill_mode == 'int_fill' or ragged:
         arr = numpy.full((n, width), fill_value, dtype='int32')
         for k, r in enumerate(rows):
-            arr[k, :len(r)] = numpy.array(r, dtype='int32') + si
+            sl = slice(width - len(r), width) if pad_front else slice(0, len(r))
+            arr[k, sl] = numpy.array(r, dtype='int32') + si
         attrs['_FillValue'] = numpy.int32(fill_value)
         return arr, attrs
     arr = numpy.array([list(r) for r in rows], dtype='int32').reshape(n, width) + si
@@ -278,7 +282,8 @@ def _table(rows, width, start_index, fill_mode, fill_value=-999):
 
 def ugrid(ny=2, nx=3, *, split=(), merge=(), start_index=0, fill='auto', transposed=False,
           tables=(), edge_dimension='auto', coords_as='vars', face_coords=False, time=2, extra=True,
-          jitter=0.0, two_name='Two', face_dimension_attr=True, edge_transposed=False, mesh=None, edge_order='first-seen', depth=0):
+          jitter=0.0, two_name='Two', face_dimension_attr=True, edge_transposed=False, mesh=None, edge_order='first-seen', depth=0,
+          edge_face_missing_first=False):
     """tables: subset of {'edge_node','face_edge','edge_face','face_face'} to supply.
     fill: 'auto' (int with _FillValue when ragged, none otherwise) | 'nan' | 'int_fill'."""
     node_x, node_y, faces = mesh if mesh is not None else quad_tri_mesh(ny, nx, split=split, merge=merge, jitter=jitter)
@@ -300,7 +305,8 @@ def ugrid(ny=2, nx=3, *, split=(), merge=(), start_index=0, fill='auto', transpo
     ctgt['Mesh2_node_y'] = xarray.DataArray(node_y, dims=['nMesh2_node'], attrs={'units': 'degrees_north'})
 
     def put(name, rows, width, rowdim, coldim, role, tr=False):
-        arr, attrs = _table(rows, width, start_index, fmode)
+        # a boundary edge may be stored as [missing, face] as well as [face, missing]
+        arr, attrs = _table(rows, width, start_index, fmode, pad_front=(edge_face_missing_first and role == 'edge_face_connectivity'))
         attrs['cf_role'] = role
         dims = [rowdim, coldim]
         if tr:
